@@ -36,11 +36,11 @@ func (t *c19tok) class() string {
 	return t.kind
 }
 
-func genC19Token(w *vsim.World, rnd *vsim.Rand, owners []string, tt *tokenTable, n int, noLegacyFormat bool) *c19tok {
+func genC19Token(w *vsim.World, rnd *vsim.Rand, owners []string, tt *tokenTable, n int, noLegacyFormat, fortyOK bool) *c19tok {
 	kinds := []string{"v2-50", "v2-41", "v2-39", "v2-extra", "v2-salted", "legacy-known", "legacy-unknown", "opaque", "v2-40"}
 	nk := len(kinds)
-	if fedSkipKnown() {
-		nk-- // no 40-character unsalted secrets (known finding auth.SaltToken:40-char-secret)
+	if fedSkipKnown() || !fortyOK {
+		nk-- // no 40-character unsalted secrets (finding "40char-secret-treated-as-salted")
 	}
 	kind := kinds[w.Choose(fmt.Sprintf("token%d-kind", n), nk)]
 	if noLegacyFormat && strings.HasPrefix(kind, "legacy-") {
@@ -198,6 +198,11 @@ func scenC19(w *vsim.World, spec *vsim.Spec) {
 	g := &c19gen{rnd: rnd, remotes: cfg.remotes}
 
 	// ---- workload: 1-3 requests, each with 1-3 tokens in different places ----------------
+	// Input classes that hit findings already reported are switched on per run, so that the
+	// other runs are judged to the end.
+	cookiesOK := w.Chance("use-cookies", 350)
+	formsOK := w.Chance("use-form-tokens", 500)
+	fortyOK := w.Chance("use-40-char-secrets", 350)
 	var plans []*c19plan
 	nReq := 1 + w.Choose("requests", 3)
 	ntok := 0
@@ -235,6 +240,9 @@ func scenC19(w *vsim.World, spec *vsim.Spec) {
 			if sh.method == "DELETE" && pl == "form" {
 				pl = "cookie"
 			}
+			if (pl == "cookie" && !cookiesOK) || (pl == "form" && !formsOK) {
+				pl = "query"
+			}
 			if pl == "oauth2" || pl == "basic" || pl == "bearer" {
 				if used["authorization"] {
 					continue
@@ -249,7 +257,7 @@ func scenC19(w *vsim.World, spec *vsim.Spec) {
 			if len(p.tokens) > 0 && w.Chance("same-token-again", 200) {
 				t = p.tokens[0]
 			} else {
-				t = genC19Token(w, rnd, owners, tt, ntok, noLegacyFormat)
+				t = genC19Token(w, rnd, owners, tt, ntok, noLegacyFormat, fortyOK)
 				ntok++
 			}
 			p.tokens = append(p.tokens, t)
